@@ -1,8 +1,16 @@
 package main
 
 import (
+	"os"
+
 	"verif/harness/core"
 	"verif/harness/drive/c08"
 )
 
-func main() { core.Main(c08.Driver) }
+func main() {
+	if os.Getenv("VERIF_C08_WORKER") != "" {
+		c08.Worker() // measures the cases it is sent on stdin; may be killed by the library
+		return
+	}
+	core.Main(c08.Driver)
+}
